@@ -79,6 +79,23 @@ def gen(tier, rng):
         prog, _ = gen_prog.generate(rng)
         calls = ["R5000"] + [sess.E(l) for l in prog] + ["T"]
         cases.append(Case(sess.session(calls), sig="\n".join(prog), tag="save", meta=("save", pi, 1)))
+    # ... and of lines at the edge of the line buffer: typed at 1022..1024 bytes, and typed short but listed at 1022..1024 bytes
+    # (? becomes PRINT); what can be typed and listed must come back from a file
+    pi = 100000
+    for total in (1022, 1023, 1024):
+        k = (total - 3 - 5) // 6
+        body = "A=A+1:" * k + "A=A+"
+        line = "10 " + body + "1" * (total - 3 - len(body))
+        assert len(line) == total
+        for prog in ([line, "20 PRINT A"], ["5 REM x", line]):
+            calls = ["R5000"] + [sess.E(l) for l in prog] + ["T"]
+            cases.append(Case(sess.session(calls), sig="line typed at %d bytes" % total, tag="save", meta=("save", pi, 1)))
+            pi += 1
+        m = (total - 3 - 4) // 9
+        short = "10 " + "?1;:" * m + "A=1" + "2" * (total - 3 - 9 * m - 3)
+        calls = ["R5000", sess.E(short), sess.E("20 PRINT A"), "T"]
+        cases.append(Case(sess.session(calls), sig="line typed short, listed at %d bytes" % total, tag="save", meta=("save", pi, 1)))
+        pi += 1
     return cases
 
 
